@@ -8,8 +8,8 @@ All theorems hold for EVERY world (= every network, control set and solver behav
 every point at which a solver call can fail.
 
 What `run_sim` does not decide itself is a hypothesis, stated where it is used: `Contract` = every call of
-`_compute_next_timestep_and_run_presolve_controls_and_rules` leaves the clock in `(prev, cur]`.  It is proved for time
-conditions and the rule clock in `Lemmas/Time.lean` / `Lemmas/Sched.lean`, checked by the harness on every observed call,
+`_compute_next_timestep_and_run_presolve_controls_and_rules` leaves the clock in `(prev, cur]`.  For time conditions and
+rules it is discharged in section 7 (`sched_world_contract`, from C04's `presolve_landed`); for tank-level conditions it is checked by the harness on every observed call,
 and `contract_needed` shows that `run_sim` really relies on it.
 
 One column per element: section 6 (on the C14 registry invariant).  Not covered here (oracle only,
@@ -19,6 +19,7 @@ import WntrModel.Lemmas.RunLoop
 import WntrModel.Lemmas.RunLoopShape
 import WntrModel.Gen.RunLoopShape
 import WntrModel.Lemmas.RunLoopTables
+import WntrModel.Lemmas.RunLoopSched
 import WntrModel.Props.C14
 
 namespace Wntr.RunLoop
@@ -553,6 +554,66 @@ example : (Tables.savedTimes (fun j k => (j, k)) (Tables.nodeNames (Registry.run
       [.addTank 1 none, .addJunction 2 none false, .addReservoir 3 none, .addPipe 4 1 2, .addPump 5 3 2 .power none]))
       [1, 2, 3] 3).bind (Tables.table [2, 1, 3] 3) =
     some [(2, [(0, 2), (1, 2), (2, 2)]), (1, [(0, 1), (1, 1), (2, 1)]), (3, [(0, 3), (1, 3), (2, 3)])] := by decide
+
+/-! ### 7. no unproved premise for time conditions and rules
+
+For worlds whose presolve pass is the scheduler of C04/C10 (`Model/Sched.lean`: SimTime / TimeOfDay conditions and their
+AND/OR combinations as presolve controls, rules on the rule clock) -- with an ARBITRARY solver and ARBITRARY post-solve
+controls -- the contract is a theorem (`Lemmas/RunLoopSched.lean`, from `Wntr.Sched.presolve_landed`), so termination and
+the well-formed index hold outright.  (Tank-level conditions compute their backtrack in floating point: for them the
+contract stays an assumption checked on every observed call.) -/
+
+section SchedWorld
+variable {A : Type} (scfg : Wntr.Sched.Cfg)
+  (solveF : Wntr.Sched.Vals × A → Nat → Bool → (Wntr.Sched.Vals × A) × SolveOutcome)
+  (postF : Wntr.Sched.Vals × A → (Wntr.Sched.Vals × A) × Bool)
+  (nodeRowF : Wntr.Sched.St × A → RN) (linkRowF : Wntr.Sched.St × A → RL)
+
+/-- the contract for a scheduler world started from a state satisfying the scheduler's invariant (`Sched.startState_inv`:
+a fresh model, or a continued one whose `_rule_iter` was set by `run_sim`) -/
+theorem sched_world_contract (hR : 0 < scfg.rule) (hH : 1 ≤ cfg.hyd) (w0 : Wntr.Sched.St × A) (simTime prevTime : Int)
+    (hI : Wntr.Sched.Inv scfg { w0.1 with simTime := simTime, prevTime := if simTime = 0 then -1 else prevTime }) :
+    Contract (schedWorld scfg solveF postF nodeRowF linkRowF) cfg (enter cfg w0 simTime prevTime) := by
+  apply sched_contract scfg solveF postF nodeRowF linkRowF cfg hR hH
+  have hJ : J scfg (init (RN := RN) (RL := RL) w0 simTime prevTime) := by
+    by_cases h0 : simTime = 0
+    · subst h0
+      simp only [if_true] at hI
+      exact ⟨by simp [init], hI.rl, fun _ => ⟨by simpa [init] using hI.hi, by simpa [init] using hI.lo⟩, fun h => by simp [init] at h⟩
+    · simp only [h0, if_false] at hI
+      refine ⟨by simpa [init, h0] using hI.lt, hI.rl, fun _ => ⟨by simpa [init, h0] using hI.hi, by simpa [init, h0] using hI.lo⟩,
+        fun h => by simp [init] at h⟩
+  rcases enter_cases (RN := RN) (RL := RL) cfg w0 simTime prevTime with e | ⟨e, _⟩
+  · rw [e]; exact Or.inr hJ
+  · rw [e]; exact Or.inl (by simp)
+
+/-- **run_terminates_time_conditions**: `run_terminates` and `times_strictly_increasing_on_grid` without the contract
+hypothesis, for every scheduler configuration (any time controls, any rules), solver and post-solve behaviour -/
+theorem run_terminates_time_conditions (hR : 0 < scfg.rule) (w0 : Wntr.Sched.St × A) {simTime prevTime : Int}
+    (hS : Start cfg simTime prevTime)
+    (hI : Wntr.Sched.Inv scfg { w0.1 with simTime := simTime, prevTime := if simTime = 0 then -1 else prevTime }) :
+    let F := runSim (schedWorld scfg solveF postF nodeRowF linkRowF) cfg w0 simTime prevTime
+    F.halt ≠ none ∧ F.times.Pairwise (· < ·) ∧ F.times = F.accepted.filter (reportNow cfg) ∧
+    F.nodeRows.length = F.times.length ∧ F.linkRows.length = F.times.length ∧ F.halt ≠ some .raiseAlreadySolved := by
+  intro F
+  have hC := sched_world_contract cfg scfg solveF postF nodeRowF linkRowF hR hS.hyd_pos w0 simTime prevTime hI
+  obtain ⟨a, _, _⟩ := run_terminates (schedWorld scfg solveF postF nodeRowF linkRowF) cfg w0 hS hC
+  obtain ⟨b, _, c, _, _, f, g, h⟩ := times_strictly_increasing_on_grid (schedWorld scfg solveF postF nodeRowF linkRowF) cfg w0 hS hC
+    (fuel cfg (enter (W := Wntr.Sched.St × A) (RN := RN) (RL := RL) cfg w0 simTime prevTime).simTime
+      (enter (W := Wntr.Sched.St × A) (RN := RN) (RL := RL) cfg w0 simTime prevTime).prevTime)
+  exact ⟨a, b, c, f, g, h⟩
+
+/-- non-vacuity: a fresh model (`Sched.startState`, whose invariant is C04's `startState_inv`) with any time controls and
+rules, any solver, any post-solve controls: `run_sim` terminates -/
+example (hR : 0 < scfg.rule) (hH : 1 ≤ cfg.hyd) (vals : Wntr.Sched.Vals) (a : A) :
+    (runSim (schedWorld scfg solveF postF nodeRowF linkRowF) cfg (Wntr.Sched.startState scfg 0 (-1) vals, a) 0 0).halt ≠ none :=
+  (run_terminates_time_conditions cfg scfg solveF postF nodeRowF linkRowF hR (Wntr.Sched.startState scfg 0 (-1) vals, a)
+    (simTime := 0) (prevTime := 0) ⟨hH, fun h => absurd rfl h⟩
+    (by
+      have h := Wntr.Sched.startState_inv (cfg := scfg) hR (simTime := 0) (prevTime := -1) vals (Or.inl rfl)
+      exact ⟨by simp, h.hi, h.lo, h.rl⟩)).1
+
+end SchedWorld
 
 /-! ### non-vacuity: concrete runs of the trace world (fresh start, hyd = report = 2 s, duration = 6 s) -/
 
